@@ -73,6 +73,13 @@ pub fn eval(case: &Case) -> Verdict {
         "text" => check_text(&case.s[0], &case.s[1]).map(|_| ()),
         // older replay shape: s = [picture, text], i = [kind]
         "parse" => check_text(&case.s[0], &case.s[1]).map(|_| ()),
+        "format" => {
+            let v = Val::new(Kind::from_index(case.i[0] as usize), case.i[1]);
+            match ad::to_lib(&v) {
+                Err(e) => Err(format!("value rejected: {e:?}")),
+                Ok(lv) => ad::format_direct(&lv, &case.s[0]).and_then(|_| ad::format_lazy(&lv, &case.s[0])).map(|_| ()),
+            }
+        }
         "op" => {
             let ops = all_ops();
             match ops.iter().find(|o| o.name == case.s[0]) {
@@ -223,10 +230,13 @@ pub fn run(ctx: &Ctx) -> (Stats, Report) {
             let pic = gen::spell_all(&toks);
             let pool = pools::pool(kind, 0, 0);
             let v = pool[((*vsel >> 1) as u64 * pool.len() as u64 >> 31) as usize % pool.len()];
-            let base = match ad::to_lib(&v).ok().and_then(|lv| ad::format_direct(&lv, &pic).ok()) {
-                Some(ad::FmtOut::Text(t)) => t,
+            let lv = ad::to_lib(&v).map_err(|e| format!("pool value rejected: {e:?}"))?;
+            // formatting the pool value itself must not panic either
+            let base = match ad::format_direct(&lv, &pic).map_err(|p| format!("{} {}: Formatter::format({pic:?}): {p}", v.kind.name(), v.raw))? {
+                ad::FmtOut::Text(t) => t,
                 _ => "2021-12-31 23:59:59.5 PM Friday".to_string(),
             };
+            ad::format_lazy(&lv, &pic).map_err(|p| format!("{} {}: format({pic:?}) into a String sink: {p}", v.kind.name(), v.raw))?;
             let text = mutate_text(&base, muts);
             let n = check_text(&pic, &text)?;
             st.evaluations += n as u64;
@@ -264,6 +274,57 @@ pub fn run(ctx: &Ctx) -> (Stats, Report) {
     );
     st.merge(s);
     st.section("grammar_pictures_x_mutated_inputs", &mut mark);
+
+    // 2b: every pool value of every type formatted with every single token and the fixed pictures
+    let mut pics: Vec<String> = FIXED_PICTURES.iter().map(|s| s.to_string()).collect();
+    for t in gen::menu() {
+        pics.push(spell(&[t]));
+    }
+    pics.sort();
+    pics.dedup();
+    for kind in KINDS {
+        let mut vals = pools::pool(kind, seed, if ctx.thorough { 4000 } else { 800 });
+        if kind == Kind::DT {
+            // every whole-day count around the two-digit / table boundaries, both signs
+            for d in (0..=400i128).chain([999, 1000, 9_999, 10_000, 99_999_999, 100_000_000]) {
+                for extra in [0i128, 1, US_PER_DAY - 1] {
+                    let x = d * US_PER_DAY + extra;
+                    if x <= DT_MAX {
+                        vals.push(Val::new(kind, x));
+                        vals.push(Val::new(kind, -x));
+                    }
+                }
+            }
+        }
+        if kind == Kind::YM {
+            for m in (0..=300i128).chain([11_999, 12_000, 119_999, 120_000, 1_199_999, 1_200_000]) {
+                vals.push(Val::new(kind, m));
+                vals.push(Val::new(kind, -m));
+            }
+        }
+        let (vref, pref) = (&vals, &pics);
+        let s = par_sweep(vals.len() as u64, 16, |range, st| {
+            for k in range {
+                let v = &vref[k as usize];
+                let lv = match ad::to_lib(v) {
+                    Ok(x) => x,
+                    Err(_) => continue,
+                };
+                for pic in pref.iter() {
+                    st.evaluations += 2;
+                    for r in [ad::format_direct(&lv, pic), ad::format_lazy(&lv, pic)] {
+                        if let Err(p) = r {
+                            st.fail(k, Case::new(P, "format", vec![v.kind.index() as i128, v.raw], vec![pic.clone()]), format!("{} {}: formatting with picture {pic:?}: {p}", v.kind.name(), v.raw));
+                            return;
+                        }
+                    }
+                    st.fps.push(hash_bytes(hash_ints(v.kind.index() as u64 + 0x3b0, &[v.raw]), pic.as_bytes()));
+                }
+            }
+        });
+        st.merge(s);
+    }
+    st.section("pool_values_x_token_pictures", &mut mark);
 
     // 3: the operation table with extreme scalars and all pool values
     let ops = all_ops();
